@@ -178,13 +178,16 @@ def replay_global(job):
     synced palettes (and ak.color.global_palette) must reflect the current state after every step, and after a NEW
     global configuration made of the same initial items is installed (histories without direct registrations)"""
     from ak import color
-    saved = color._GLOBAL_COLORS_CONF
+    saved = getattr(color, '_GLOBAL_COLORS_CONF', None)        # None: the global configuration was never asked for
     mine = []
     try:
         return _replay_global(job, mine)
     finally:
-        for cls in mine:
-            color._GSYNCED_PALETTES.pop(cls, None)
+        # housekeeping of the worker process (not part of what is checked): forget this behaviour's synced palettes
+        reg = getattr(color, '_GSYNCED_PALETTES', None)
+        if isinstance(reg, dict):
+            for cls in mine:
+                reg.pop(cls, None)
         color.set_global_colors_config(saved)
 
 
